@@ -63,7 +63,31 @@ def gen(r, S=None, saa=False):
     # box written for component j is loosened by 2 - the oracles keep using ex['hi']
     for ex in d['exps']:
         ex['xpiece'] = int(r.integers(0, nz)) if r.random() < 0.3 else None
+    # a piecewise (non-expectation) robust constraint with its OWN ambiguity set (wider supports):
+    #   (maxof(y - a1, g3.z - a2) <= cap).forall(fs_wide)   <=>   y_s(z) <= cap + a1 on the widened support of every scenario
+    d['pwcon'] = None
+    if not saa and d['y_affine'] and r.random() < 0.4:
+        wide_hi = [(np.array(d['hi'][s]) + 1.0).tolist() for s in range(S)]
+        env = max(max(abs(float(np.array(g_) @ v)) for g_ in (d['g'], d['g2']))
+                  for s in range(S) for v in itertools.product(*[sorted(set(pr)) for pr in zip(d['lo'][s], wide_hi[s])]))
+        d['pwcon'] = {'a1': 1.0, 'g3': rint(r, -1, 1, nz).tolist(), 'a2': 40.0, 'cap': float(env + float(r.choice([0.5, 1.0, 3.0]))) - 1.0,
+                      'wide_hi': wide_hi}
+    # the expectation constraint with a second piece: E(maxof(q.z + c.x, q2.z + c2.x + k2)) <= rhs
+    if d['econ'] and not saa and r.random() < 0.55:
+        d['econ']['q2'] = rint(r, -1, 1, nz).tolist(); d['econ']['c2'] = rint(r, -1, 1, nd).tolist(); d['econ']['k2'] = float(rint(r, -1, 2))
+        d['econ']['rhs'] = float(rint(r, 0, 3))                 # tight enough to bind (the decisions can usually still satisfy it)
+        if not np.any(d['econ']['q2']) and not np.any(d['econ']['q']):
+            d['econ']['q2'][0] = 1.0
     return d
+
+
+def econ_value(d, xs, v):
+    """integrand of the expectation constraint at decisions xs and realisation v"""
+    ec = d['econ']
+    val = np.array(ec['q']) @ v + np.array(ec['c']) @ xs
+    if 'q2' in ec:
+        val = max(val, np.array(ec['q2']) @ v + np.array(ec['c2']) @ xs + ec['k2'])
+    return val
 
 
 def build(d, presolve=None):
@@ -108,6 +132,12 @@ def build(d, presolve=None):
     else:
         fs.probset(m.p >= np.array(d['plo']), m.p <= np.array(d['phi']))
 
+    fs_wide = None
+    if d.get('pwcon'):
+        fs_wide = m.ambiguity()
+        for s in range(S):
+            (fs_wide.loc[lab(s)] if (d['labels'] or d['int_labels']) else fs_wide[s]).suppset(z >= np.array(d['lo'][s]), z <= np.array(d['pwcon']['wide_hi'][s]))
+
     def piece_expr(pc):
         return (np.array(pc['R']) @ x + np.array(pc['r0'])) @ z + np.array(pc['a']) @ x + pc['a0']
     pcs = [piece_expr(pc) for pc in d['pieces']]
@@ -126,13 +156,26 @@ def build(d, presolve=None):
     m.st(y >= np.array(d['g']) @ z + np.array(d['hh']) @ x)
     m.st(y >= np.array(d['g2']) @ z + np.array(d['hh2']) @ x)
     m.st(x >= -3, x <= 3, y <= 50)
+    if d.get('pwcon'):
+        pw = d['pwcon']
+        m.st((rso.maxof(y - pw['a1'], np.array(pw['g3']) @ z + 0 * x[0] - pw['a2']) <= pw['cap']).forall(fs_wide))
     if d['econ']:
-        m.st(E(np.array(d['econ']['q']) @ z + np.array(d['econ']['c']) @ x) <= d['econ']['rhs'])
+        ec = d['econ']
+        p1 = np.array(ec['q']) @ z + np.array(ec['c']) @ x
+        if 'q2' in ec:
+            p2 = np.array(ec['q2']) @ z + np.array(ec['c2']) @ x + ec['k2']
+            m.st(E(rso.maxof(p1, p2)) <= ec['rhs'])
+        else:
+            m.st(E(p1) <= ec['rhs'])
     return m, {'x': x, 'y': y, 'z': z, 'fs': fs}
 
 
 def vertices(d, s):
     return np.array(list(itertools.product(*[sorted(set(pair)) for pair in zip(d['lo'][s], d['hi'][s])])))
+
+
+def wide_vertices(d, s):
+    return np.array(list(itertools.product(*[sorted(set(pair)) for pair in zip(d['lo'][s], d['pwcon']['wide_hi'][s])])))
 
 
 def read_solution(d, h):
@@ -169,7 +212,7 @@ def worst_case(d, xs, y0, Y, integrand='obj'):
             if d['const_piece'] is not None:
                 vals.append(d['const_piece'])
             return d['cy'] * yv + np.array(d['c0']) @ xs + max(vals)
-        return np.array(d['econ']['q']) @ v + np.array(d['econ']['c']) @ xs
+        return econ_value(d, xs, v)
     fvals = np.array([f(s, v) for s, v in idx])
     cvec = np.concatenate([-fvals, np.zeros(S)])
     Aeq = []; beq = []
@@ -214,6 +257,12 @@ def robust_violations(d, xs, y0, Y, tol=1e-6):
                 rhs = np.array(g) @ v + np.array(hh) @ xs
                 if yv < rhs - tol * (1 + abs(rhs)):
                     out.append({'scenario': s, 'z': v.tolist(), 'y': float(yv), 'needs': float(rhs)})
+        if d.get('pwcon'):
+            for v in wide_vertices(d, s):
+                yv = y0[s] + Y[s] @ v
+                ubv = d['pwcon']['cap'] + d['pwcon']['a1']
+                if yv > ubv + tol * (1 + abs(ubv)):
+                    out.append({'scenario': s, 'z': v.tolist(), 'y': float(yv), 'piecewise_forall_needs_at_most': float(ubv)})
     return out
 
 
